@@ -26,7 +26,7 @@ import Driver.Util
               u<id>  request number the object does not implement
               x<id>:<0|1>  MULTISTREAM_GET_{EN,DE}CODER_STATE(id, NULL|ptr)
               q<0|1> / a<0|1> / t<0|1>:<size>  projection demixing size / gain / matrix requests
-              E<frame_size>:<bytes>:<ret>:<obs,…>:<toc>:<payload>:<frames>   opus_encode + fields observed afterwards + packet
+              E<frame_size>:<bytes>:<ret>:<obs,…>:<toc>:<payload>:<frames>:<sig>:<seed>   opus_encode + fields observed afterwards, packet, signal
               D<frame_size>:<ret>:<obs,…>           opus_decode + fields observed afterwards
   After every op the answer is `<code>[=<value>]/<snapshot>`.
 -/
@@ -187,7 +187,7 @@ def parseEncObs (l : List Int) : Option EncObs :=
 def encEncodeOp (s : EncSt) (body : String) : Option (EncSt × String) :=
   -- (the trailing toc:payload:frames describe the packet on the wire; they are read by the S4 search only)
   match body.splitOn ":" with
-  | [fsz, bytes, ret, obs, _, _, _] => do
+  | [fsz, bytes, ret, obs, _, _, _, _, _] => do
     let fsz ← fsz.toInt?; let bytes ← bytes.toInt?; let ret ← ret.toInt?
     let o ← (← parseIntList obs) |> parseEncObs
     match encodeContract s fsz bytes ret o with
@@ -251,7 +251,7 @@ def runProj (s : ProjEncSt) : List String → List String → String
   | t :: ts, acc =>
     if t.toList.head? = some 'E' then
       match (tokBody t).splitOn ":" with
-      | [_, _, _, obs] =>
+      | [_, _, _, obs, _, _] =>
         match adoptMs s.ms obs with
         | some m =>
           let s' := { s with ms := m }
